@@ -515,7 +515,27 @@ def part_templates(ctx, tie_ok):
                    {"shape": A.eth_ty(t), "coq_type": A.coq_ty(t), "values": [repr(v) for v in vals],
                     "results [legacy v1, venom v1, legacy v2, venom v2] (1 ok, 0 wrong bytes/len/confinement, <0 evaluator)": o},
                    "tplrun")
+    # layout normalisation templates (narrower -> wider pairs): observed IR vs the model Widen.store_memory
+    pairs = TP.norm_pairs()
+    exprs, meta = [], []
+    for i, (ts, td) in enumerate(pairs):
+        if i % step:
+            continue
+        vals = [A.gen_value(r, ts, "max"), A.gen_value(r, ts, "rand")]
+        exprs.append("[" + "; ".join(f"run_norm_tpl (snd (nth {i} obs_norm (TBool, TBool, SI 0))) {A.coq_ty(ts)} {A.coq_ty(td)} "
+                                     f"{A.coq_val(ts, v)}" for v in vals) + "]")
+        meta.append((ts, td, vals))
+    imp = "From Verif Require Import C06.Abi C06.Sexp C06.SxEval C06.VxEval C06.Widen C06.GenTplNorm.\n"
+    outs = coqrun.eval_zlists(imp, exprs, "c06normrun", shard=8, timeout=400)
+    for (ts, td, vals), o in zip(meta, outs):
+        n += len(o)
+        if any(x != 1 for x in o):
+            report(ctx, "correspondence-broken", "an OBSERVED venom normalisation template, executed in Coq, does not yield "
+                   "the declared layout / disagrees with the model Widen.store_memory",
+                   {"narrow": A.eth_ty(ts), "wide": A.eth_ty(td), "coq_types": [A.coq_ty(ts), A.coq_ty(td)],
+                    "values": [repr(v) for v in vals], "results": o}, "normrun")
     ctx.corr["template_family"] = len(fam)
+    ctx.corr["normalisation_pair_family"] = len(pairs)
     ctx.corr["template_executions_in_coq"] = n
     return n
 
@@ -565,7 +585,8 @@ def run(ctx):
     except G.Unsupported as e:
         gen_err = str(e)
     static = ["C06/Abi.v", "C06/AbiLemmas.v", "C06/Roundtrip.v", "C06/ZeroPad.v", "C06/Venc.v", "C06/VencProofs.v",
-              "C06/Sexp.v", "C06/TplEncL.v", "C06/TplEncV.v", "C06/SxEval.v", "C06/VxEval.v"]
+              "C06/Sexp.v", "C06/TplEncL.v", "C06/TplEncV.v", "C06/SxEval.v", "C06/Widen.v", "C06/WidenProofs.v",
+              "C06/VxEval.v", "C06/TplNorm.v"]
     b = {"ok": False, "file": "C06/GenAbiSizes.v", "failed_lemma": None, "out": gen_err}
     if gen_err is None:
         # static files are shared with C05/C12/C19 (coq/STATIC): rebuilt only when stale, so that a concurrently
@@ -579,9 +600,10 @@ def run(ctx):
     try:
         from vlib import c06_tpl as TP
         TP.write_gen(COQ, "enc")
-        g = ctx.coq_build(["C06/GenTplEncL.v", "C06/GenTplEncV.v"])
+        (COQ / "C06" / "GenTplNorm.v").write_text(TP.HEADER + TP.coq_pair_table("obs_norm", TP.export_venom_norm(TP.norm_pairs())))
+        g = ctx.coq_build(["C06/GenTplEncL.v", "C06/GenTplEncV.v", "C06/GenTplNorm.v"])
         if g["ok"]:
-            tie = ctx.coq_build(["C06/TieEnc.v"])
+            tie = ctx.coq_build(["C06/TieEnc.v", "C06/TieNorm.v"])
         else:
             tpl_err = "observed template tables do not compile: " + str(g.get("out"))[-300:]
     except Exception as e:  # noqa
